@@ -15,32 +15,47 @@ def goodNs (noneGood : Bool) (name : String) : Bool :=
   | some ns => ns == svgNs || ns == xlinkNs
   | none => noneGood
 
+/-- a pass that decides per node from its own (tag, attrs) or node kind -/
+structure LocalPass where
+  drop : String → Attrs → Bool
+  amap : String → Attrs → Attrs
+  dropOther : Node → Bool
+
+def LocalPass.f (P : LocalPass) : Node → List Node
+  | .elem u t a cs => if P.drop t a then [] else [.elem u t (P.amap t a) cs]
+  | n => if P.dropOther n then [] else [n]
+
+def nonSvgPass (noneGood : Bool) : LocalPass :=
+  { drop := fun t _ => !goodNs noneGood t
+    amap := fun _ a => a.filter (fun (k, _) => goodNs noneGood k)
+    dropOther := fun _ => false }
+
+def piPass : LocalPass :=
+  { drop := fun _ _ => false, amap := fun _ a => a, dropOther := fun n => match n with | .pi => true | _ => false }
+
+def anonSymbolPass : LocalPass :=
+  { drop := fun t a => t == svgTag "symbol" && !(a.has "id"), amap := fun _ a => a, dropOther := fun _ => false }
+
+def metaTags : List String := ["title", "desc", "metadata", "comment"]
+
+def metaPass : LocalPass :=
+  { drop := fun t _ => metaTags.any (fun m => t == svgTag m), amap := fun _ a => a, dropOther := fun _ => false }
+
 /-- `remove_nonsvg_content`: foreign-namespace elements go (with their subtrees), foreign
-    attributes are deleted -/
+    attributes are deleted; the root itself is only attribute-filtered -/
 def removeNonSvg (noneGood : Bool) (root : Node) : Node :=
-  let f : Node → List Node := fun n =>
-    match n with
-    | .elem u t a cs =>
-      if !goodNs noneGood t then [] else [.elem u t (a.filter (fun (k, _) => goodNs noneGood k)) cs]
-    | x => [x]
-  -- the root itself is only attribute-filtered (removing it would fail in lxml)
-  match rewrite f root with
+  match rewrite (nonSvgPass noneGood).f root with
   | [r] => r
   | _ => root
 
 /-- `remove_processing_instructions` -/
-def removePIs (root : Node) : Node :=
-  rewriteBelow (fun n => match n with | .pi => [] | x => [x]) root
+def removePIs (root : Node) : Node := rewriteBelow piPass.f root
 
 /-- `remove_anonymous_symbols`: `//svg:symbol[not(@id)]` -/
-def removeAnonSymbols (root : Node) : Node :=
-  rewriteBelow (fun n => if n.isElem && n.tag == svgTag "symbol" && !(n.attrs.has "id") then [] else [n]) root
-
-def metaTags : List String := ["title", "desc", "metadata", "comment"]
+def removeAnonSymbols (root : Node) : Node := rewriteBelow anonSymbolPass.f root
 
 /-- `remove_title_meta_desc` -/
-def removeTitleMetaDesc (root : Node) : Node :=
-  rewriteBelow (fun n => if n.isElem && metaTags.any (fun t => n.tag == svgTag t) then [] else [n]) root
+def removeTitleMetaDesc (root : Node) : Node := rewriteBelow metaPass.f root
 
 /-- the four passes in the order `topicosvg` runs them -/
 def cleanup (noneGood : Bool) (root : Node) : Node :=
